@@ -552,7 +552,7 @@ RULE_ADDENDA = {
     "C16": "per-case equivalent builder call sequences; try_from paths also with rotation + listing; every 32nd case is a DST child; in half of the symlink cases the configured link exists before the logger starts (dangling, or pointing elsewhere)",
     "C17": "a tenth of the strings is long; every 16th string also through the RUST_LOG entry points; blank-part vs empty-part relation for inputs the docs leave open",
     "C18": "every 8th case: primary file/stderr/stdout + an additional file writer, one reopen_output for all, immediate reads of unbuffered files; every 16th case: reopen_output in a loop while 2-4 threads log through rotations; a third of the resets of a non-rotating family keeps the same file specification and only switches rotation on",
-    "C19": "a bystander file writer in every fault history; a third of the cases with the background cleanup thread; partition under cleanup faults and cleanup limits after recovery are judged; real faults: blocked rotation target, rotated name longer than NAME_MAX, controlled failed-open-then-background-cleanup order, RLIMIT_FSIZE; every 10th case: failures of the system calls themselves (strace -e inject=<call>:error=<errno>:when=<n>[..m] on the n-th write/openat/rename/unlink naming the log directory of a child history; the strace log attributes each failure to the operation window announced in the ack file); the listing of the directory (fs point read_dir) is one of the hook fault points since the listing has an error path (fix 5ed7d12); the syscall-fault histories contain restarts (a logger started on a directory with files, under a fault); in the syscall-fault histories the plain number naming has a quarter of the cases, two thirds of the rotating histories restart the logger, and the failing calls of a set-up on a directory with files are sampled first",
+    "C19": "a bystander file writer in every fault history; a third of the cases with the background cleanup thread; partition under cleanup faults and cleanup limits after recovery are judged; real faults: blocked rotation target, rotated name longer than NAME_MAX, controlled failed-open-then-background-cleanup order, RLIMIT_FSIZE; every 10th case: failures of the system calls themselves (strace -e inject=<call>:error=<errno>:when=<n>[..m] on the n-th write/openat/rename/unlink naming the log directory of a child history; the strace log attributes each failure to the operation window announced in the ack file); the listing of the directory (fs point read_dir) is one of the hook fault points since the listing has an error path (fix 5ed7d12); the syscall-fault histories contain restarts (a logger started on a directory with files, under a fault); in the syscall-fault histories the plain number naming has a quarter of the cases, two thirds of the rotating histories restart the logger, and the failing calls of a set-up on a directory with files are sampled first; every 10th case: hook faults while a logger starts on a directory with the files of an earlier run (p_c19r.rs): the fs points of the first log call of the second run are traced, then one run per (point, occurrence) and per burst from the first occurrence; judged against the same two runs without the fault (records of the earlier run that survive there survive here; records of the new run missing only while the listing / the rename of the earlier current file / the creation of the file keeps failing, or where their own write failed)",
     "C20": "shards 4-7 and 12-15 run with UTC forced; children configure formats explicitly, through AdaptiveFormat, or not at all",
 }
 for _k, _v in RULE_ADDENDA.items():
